@@ -56,7 +56,7 @@ def run(ctx):
     ctx.sample({"kind": "random deep model behaviour", "script": deep[0]})
     run_scripts(ctx, exe, deep, "gensim")
     # 3. code -> spec: long random histories with sizes 0 .. MBs
-    nexec, nops, maxsize = (600, 40, 200000) if ctx.quick() else (6000, 60, 4000000)
+    nexec, nops, maxsize = (600, 40, 4000000) if ctx.quick() else (6000, 60, 4000000)
     tr = ctx.tmp("random.ndjson")
     validate(ctx, exe, ["random", ctx.seed, nexec, nops, maxsize, tr], tr, "random histories")
     first = vlib.read_lines(tr, 1, 4)
